@@ -137,9 +137,13 @@ func (e *Enc) Encode() (err error) {
 	}
 	e.encodeBody()
 	if e.fc != nil {
-		for _, ac := range e.fc.AtCalls {
+		for i, ac := range e.fc.AtCalls {
 			if !ac.Used {
-				return fmt.Errorf("%s: `at call %s#%d` binds to no call site", e.fnLabel, ac.Callee, ac.Ord)
+				// the contract anchors a claim at a call that the body no longer makes: the claim cannot be
+				// established, which is reported as a failed obligation (not as an engine error)
+				e.curR = tTrue
+				e.assertOb(fmt.Sprintf("anchor-missing@%s#%d.%d", shortName(ac.Callee), ac.Ord, i+1), tFalse,
+					fmt.Sprintf("the contract anchors `%s` at call %s#%d, but the body makes no such call", ac.C.Src, ac.Callee, ac.Ord), token.NoPos)
 			}
 		}
 	}
@@ -287,6 +291,12 @@ func (e *Enc) block(b *ssa.BasicBlock) {
 		nh := &HeapState{enc: e, m: map[string]Term{}, parents: []heapParent{{tTrue, e.cur}}, epoch: e.cur.epoch}
 		if li.writes["*"] {
 			nh = e.newBaseHeap(fmt.Sprintf("@L%d", li.ordinal))
+			// private families not written by the loop keep their pre-loop content
+			nh.privFrom = e.cur
+			nh.privExcl = map[string]bool{}
+			for name := range li.writes {
+				nh.privExcl[name] = true
+			}
 		} else if len(li.writes) > 0 {
 			entryHeap := e.cur
 			for name := range li.writes {
